@@ -143,6 +143,8 @@ def units(tier):
     _wrap(us, "C15.compute_gfw.cache_coherent_with_element_weights", MO.unit_gfw_cache)
     _wrap(us, "C15.cxxMix.Add.accumulates_repeated_numbers", MO.unit_mix_add)
     _wrap(us, "C15.tidy_solutions.unnumbered_rows_get_unused_numbers", MO.unit_tidy_solutions_numbering)
+    from props import c15_readers as RD
+    _wrap(us, "C15.read_delta_h_only.enthalpy_stored_in_kJ_for_every_unit", RD.unit_delta_h)
     return us
 
 
